@@ -26,6 +26,7 @@ From Coq Require Import ZArith List Bool.
 From SP Require Import Base.Sat Base.Bits Design.Flat Design.Layout.
 From SP Require Import Encode.Compile Encode.CodeSem Encode.Generic Encode.CompileCorollaries Encode.Totality.
 From SP Require Core.Card Sample.Decode Sample.DecodeProofs Design.LayoutWf Sample.DecodeWf.
+From SP Require Random.Enum Random.Frag Random.Frag2Thms Random.KeysCount.
 
 Theorem C08_compile_total_f1 :
   forall fb : flat, in_f1 fb = true -> (0 < T fb)%nat -> exists b, compile fb = COk b.
@@ -87,3 +88,19 @@ Theorem C08_random_enumerator_total : forall (fb : flat) (eb : Random.Enum.enum_
     Random.Enum.en_base en = eb /\ Random.Enum.en_valid en = vs.
 Proof. exact Random.KeysCount.enumerator_total. Qed.
 Print Assumptions C08_random_enumerator_total.
+
+(** RandomGen: on the fragment [Frag.frag2] (Properties/C04.v) the model of
+    [UCSolutionEnumerator] / [RandomGen.__sample] (Random/Enum.v) returns no error
+    value: the enumerator is built, the key list is listed, every key is decoded
+    to a candidate and the rejection test returns a verdict on it (no exception
+    constructor, in particular no fuel exhaustion of the memoised counter:
+    C13 totality). *)
+Theorem C08_random_total_frag2 : forall (fb : flat), Random.Frag.frag2 fb = true ->
+  exists (en : Random.Enum.enumerator) (ks : list Random.Enum.key),
+    Random.Enum.make_enumerator fb = Random.Enum.ROk en /\ Random.Enum.all_keys fb en = Random.Enum.ROk ks /\
+    forall k, In k ks ->
+      exists (r : Random.Enum.run) (v : bool),
+        Random.Enum.decode_with fb en k = Random.Enum.ROk r /\
+        Random.Enum.are_constraints_violated fb en r = Random.Enum.ROk v.
+Proof. exact Random.Frag2Thms.f2_total. Qed.
+Print Assumptions C08_random_total_frag2.
